@@ -103,7 +103,9 @@ def failing_stylesheet(r):
         glob = '<xsl:%s name="gv"><g>%s</g></xsl:%s><xsl:variable name="gv2" select="count($gv)"/>' % (kind, inner, kind)
         inner = '<xsl:copy-of select="$gv"/><xsl:value-of select="$gv2"/>'
         names.append('top-level ' + kind)
-    xsl = (HEAD % ' xmlns:ext="urn:verif-no-such-extension"') + '<xsl:key name="k" match="*" use="name()"/><xsl:param name="gp" select="\'d\'"/>%s<xsl:template match="/"><out gp="{$gp}">%s%s</out></xsl:template>%s</xsl:stylesheet>' % (glob, before, inner, ''.join(extra))
+    # the output method decides which formatter holds the output produced so far when the failure unwinds the stack
+    method = r.choice(['', '', '<xsl:output method="text"/>', '<xsl:output method="html"/>', '<xsl:output method="xml" encoding="UTF-16"/>', '<xsl:output method="text" encoding="ISO-8859-1"/>'])
+    xsl = (HEAD % ' xmlns:ext="urn:verif-no-such-extension"') + method + '<xsl:key name="k" match="*" use="name()"/><xsl:param name="gp" select="\'d\'"/>%s<xsl:template match="/"><out gp="{$gp}">%s%s</out></xsl:template>%s</xsl:stylesheet>' % (glob, before, inner, ''.join(extra))
     return xsl, '%s inside %s' % (fname, '/'.join(names[::-1]) or 'the root template')
 
 
@@ -133,6 +135,13 @@ def case(ctx, idx, res):
         key = "substring('aAbBcCAa', count(preceding::*) mod 8 + 1, 1)"
         sheets.append(('ok', (HEAD % '') + '<xsl:output method="text"/><xsl:template match="/"><xsl:for-each select="//*"><xsl:sort select="%s" lang="%s"%s/><xsl:value-of select="concat(%s, count(preceding::*), \' \')"/>'
                        '</xsl:for-each></xsl:template></xsl:stylesheet>' % (key, lang, ' case-order="%s"' % co if co else '', key), 'sort lang=%s case-order=%s' % (lang, co)))
+    # external functions installed on the transformer: a guarded call (succeeds either way and shows what is installed) and a bare one (fails
+    # while nothing is installed)
+    sheets.append(('ok', (HEAD % ' xmlns:vx="urn:verif-ext"') + '<xsl:output method="text"/><xsl:template match="/"><xsl:for-each select="//*[position() &lt; 4]"><xsl:choose><xsl:when test="function-available(\'vx:f1\')">'
+                   '<xsl:value-of select="vx:f1(name())"/></xsl:when><xsl:otherwise>none</xsl:otherwise></xsl:choose>,<xsl:value-of select="function-available(\'vx:f2\')"/>;</xsl:for-each></xsl:template></xsl:stylesheet>',
+                   'guarded call of an installed function'))
+    sheets.append(('ok', (HEAD % ' xmlns:vx="urn:verif-ext"') + '<xsl:output method="text"/><xsl:template match="/"><xsl:value-of select="vx:f2(count(//*))"/>|<xsl:value-of select="vx:f1(1)"/></xsl:template></xsl:stylesheet>',
+                   'bare call of installed functions'))
     if r.random() < 0.3:
         sheets.append(('fail', (HEAD % '') + '<xsl:output encoding="US-ASCII"/><xsl:template match="/"><out><w/><xsl:comment>caf&#233;</xsl:comment></out></xsl:template></xsl:stylesheet>', 'unserializable character in a comment'))
     if r.random() < 0.3:
@@ -143,6 +152,7 @@ def case(ctx, idx, res):
     T = d.call(cmd='tnew')['t'].decode()
     idle = d.call(cmd='snapshot', t=T).get('sizes')          # hook H2: sizes of the internal stacks of an idle transformer
     params = {}          # name -> (kind, value) currently set on T
+    extfns = {}          # name -> tag of the external functions installed on T
     cs = {}              # handle -> sheet index
     ps = {}              # handle -> (doc index, xerces)
     nops = r.choice([6, 10, 16, 25])
@@ -190,6 +200,17 @@ def case(ctx, idx, res):
                 d.call(cmd='param', t=T, kind='clear', name='', value='')
                 params = {}
                 trail.append('clear params')
+            elif k < 0.51:
+                name = r.choice(['f1', 'f1', 'f2'])
+                if name in extfns and r.random() < 0.5:
+                    d.call(cmd='extfn', t=T, kind='uninstall', name=name)
+                    del extfns[name]
+                    trail.append('uninstall function %s' % name)
+                else:
+                    tag = r.choice(['A', 'B', 'C'])
+                    d.call(cmd='extfn', t=T, kind='install', name=name, tag=tag)       # installing over an installed function replaces it
+                    extfns[name] = tag
+                    trail.append('install function %s tag=%s' % (name, tag))
             else:
                 # a transformation: choose forms
                 use_cs = cs and r.random() < 0.4
@@ -226,6 +247,8 @@ def case(ctx, idx, res):
                 try:
                     for name, (kind, val) in params.items():
                         d.call(cmd='param', t=F, kind=kind, name=name, value=val)
+                    for name, tag in extfns.items():
+                        d.call(cmd='extfn', t=F, kind='install', name=name, tag=tag)
                     fF = dict(f, t=F)
                     if use_cs:
                         fF['sty'] = 'compiled'
